@@ -189,6 +189,7 @@ type Enc struct {
 }
 
 type retInfo struct {
+	okRet bool // success return: last result is the constant nil error (or the function has no error result)
 	reach string
 	vals  []string
 	st    map[string]string
